@@ -278,6 +278,52 @@ Section Tree.
       rewrite forallb_map'. exact E2.
   Qed.
 
+  (* ---------------------------------------------------------------- generic elements *)
+  Lemma den_any : forall k x, (odepth x <= k)%nat -> fits_anyel x = true ->
+    den (g_any x) = [e_any x] /\ attrs_present (item_of c (g_any x)) = true.
+  Proof.
+    induction k as [|k IH]; intros x Hd Hf;
+      destruct (fits_anyel_inv x Hf) as [q [s [a [ch [-> [Hq [Hnd [Hat [Hs Hch]]]]]]]]]; [cbn [odepth] in Hd; lia|].
+    cbn [g_any e_any].
+    assert (Hrel : Forall2 attr_rel (map (fun a0 => (of_qname (fst a0), of_wval c (snd a0))) (map (fun kv : qname * str => (fst kv, WP (PStr (snd kv)))) a))
+                     (map (fun kv : qname * str => (Bind.split_qname (fst kv), [AText (snd kv)])) a)).
+    { clear Hnd Hf Hd. induction a as [|kv r IHa]; [constructor|]. cbn [map]. cbn [forallb] in Hat. apply andb_true_iff in Hat as [Hkv Hr].
+      constructor; [|apply IHa; exact Hr].
+      unfold attr_rel. cbn [fst snd of_wval of_prim attr_atoms].
+      unfold any_attr_ok in Hkv. apply andb_true_iff in Hkv as [Hres _]. apply negb_true_iff in Hres.
+      assert (Hnt : qname_eqb (of_qname (fst kv)) q_xsi_type = false).
+      { rewrite <- split_xsi_type. apply qname_eqb_split. intros E. unfold reserved_name in Hres.
+        rewrite E, str_eqb_refl, orb_true_r in Hres. discriminate. }
+      rewrite Hnt. cbn [andb]. repeat split. }
+    assert (Hndk : NoDup (map fst (map (fun kv : qname * str => (Bind.split_qname (fst kv), [AText (snd kv)])) a))).
+    { rewrite map_map. cbn [fst]. rewrite <- (map_map fst Bind.split_qname).
+      apply FinFun.Injective_map_NoDup; [|exact Hnd]. intros a0 b0. apply split_qname_inj. }
+    assert (Hnonil : forall ea, In ea (map (fun kv : qname * str => (Bind.split_qname (fst kv), [AText (snd kv)])) a) -> fst ea <> q_xsi_nil).
+    { intros ea Hea. apply in_map_iff in Hea as [kv [<- Hkv]]. cbn [fst].
+      rewrite forallb_forall in Hat. specialize (Hat kv Hkv). unfold any_attr_ok in Hat. apply andb_true_iff in Hat as [Hres _].
+      apply negb_true_iff in Hres. rewrite <- split_xsi_nil. intros Es. apply split_qname_inj in Es.
+      unfold reserved_name in Hres. rewrite Es, str_eqb_refl in Hres. discriminate. }
+    assert (Hkids : flat_map den (map (g_any) ch) = map e_any ch
+                    /\ forallb (fun k0 => attrs_present (item_of c k0)) (map g_any ch) = true).
+    { assert (Hd' : forall y, In y ch -> (odepth y <= k)%nat).
+      { intros y Hy. pose proof (odepth_anychild (Some q) (Some s) None a ch y Hy). lia. }
+      clear Hs Hd Hf. induction ch as [|y r IHc]; [split; reflexivity|]. cbn [map flat_map forallb].
+      destruct (IH y (Hd' y (or_introl eq_refl)) (Hch y (or_introl eq_refl))) as [E1 E2].
+      destruct (IHc (fun z Hz => Hch z (or_intror Hz)) (fun z Hz => Hd' z (or_intror Hz))) as [E3 E4].
+      rewrite E1, E2, E3, E4. split; reflexivity. }
+    destruct Hkids as [Hk1 Hk2].
+    split.
+    - unfold den. cbn [item_of denote map].
+      rewrite (spec_attrs_rel _ _ [] Hrel Hndk). cbn [app].
+      rewrite (nil_filter_none _ _ Hnonil). f_equal. f_equal.
+      cbn [flat_map denote of_wval of_prim atoms_of_value]. rewrite flat_map_map. fold den.
+      change (flat_map (fun x0 : bitem => denote (item_of c x0)) (map g_any ch)) with (flat_map den (map g_any ch)).
+      rewrite Hk1. destruct s; reflexivity.
+    - unfold attrs_present, t_attrs_present. cbn [item_of all_nodes map].
+      rewrite (attrs_present_rel _ _ Hrel). cbn [andb forallb].
+      rewrite forallb_map'. exact Hk2.
+  Qed.
+
   (* ---------------------------------------------------------------- content *)
   (* kids the specification reads something from count as content for the writer *)
   Lemma content_of_den ks : flat_map denote ks <> [] -> existsb kid_content ks = true.
@@ -335,7 +381,9 @@ Section Tree.
     set (gats0 := flat_map (fun var => g_attr c u ign var (field_of fs var)) (get_attribute_vars m)).
     set (gats := gats0 ++ xsi_attr_g xsi).
     set (gnil := if b then [(XSI_NIL, WP (PStr EventGen.TRUE_STR))] else []).
-    pose proof (class_pairs_fits c u ok _ _ cl fs m Hwc Hnames Hfe) as Hps.
+    assert (Hfw : forall wv, m_wildcards m = [wv] -> fits_wild u m wv (field_of fs wv) = true)
+      by (intros wv Hwv; apply (fits_wildvar c u ok pyspace n cl fs m wv Hfit Hm Hwv)).
+    pose proof (class_pairs_fits c u ok _ _ cl fs m Hwc Hnames Hfe Hfw) as Hps.
     set (gks := flat_map (fun vv => g_field c u (gobj n) (fst vv) (snd vv)) (pairs cl fs m)).
     (* attributes *)
     assert (Hmapv : forall var, is_mapvar m var ->
@@ -450,7 +498,37 @@ Section Tree.
                   flat_map den [g_prim c u var y] = [e_prim c u var y]
                   /\ forallb (fun k => attrs_present (item_of c k)) [g_prim c u var y] = true).
         { intros y Hy Hnl. cbn [flat_map forallb]. destruct (den_prim var y Hy Hnl) as [E1 E2]. rewrite E1, E2. split; reflexivity. }
-        destruct (wf_class_evar m var Hwc Hvar) as [[Hwe Hine]|[Htx [Hwt Hnoe]]].
+        destruct (wf_class_evar m var Hwc Hvar) as [[Hwe Hine]|[[Htx [Hwt Hnoe]]|Hwv]].
+        3:{ (* the wildcard field: generic elements *)
+            pose proof Hwv as [Ewv [Hww _]].
+            destruct (wf_wild_inv var Hww) as [_ [_ [_ [_ [_ [Htf [_ [_ [Hkt _]]]]]]]]].
+            pose proof (Hfw var Ewv) as Hfv. unfold fits_wild in Hfv.
+            unfold g_items, e_items. rewrite Hkt, Htf.
+            assert (Hone : forall y, fits_any_top u m var y = true ->
+                      den (g_item c u (gobj n) var y) = [e_item c u (eobj n) var y]
+                      /\ attrs_present (item_of c (g_item c u (gobj n) var y)) = true).
+            { intros y Hy. unfold fits_any_top in Hy. apply andb_true_iff in Hy as [Hy _].
+              destruct (fits_anyel_inv y Hy) as [q0 [s0 [a0 [ch0 [Ey _]]]]]. rewrite Ey. cbn [g_item e_item]. rewrite <- Ey.
+              apply (den_any (odepth y) y (le_n _) Hy). }
+            destruct Hsrc as [Hw|[f0 [t0 [l0 [Hf0 [_ [_ [El Hil]]]]]]]]; cbn [fst snd] in *.
+            - unfold pair_whole in Hw. cbn [fst snd] in Hw. rewrite <- Hw in Hfv.
+              destruct (v_factory var).
+              + destruct x as [| |tt l| | | |]; try discriminate Hfv. destruct tt; [discriminate Hfv|].
+                rewrite forallb_forall in Hfv. clear Hxn Hin Hw.
+                induction l as [|y l IHl]; [split; reflexivity|].
+                cbn [map flat_map forallb]. destruct (Hone y (Hfv y (or_introl eq_refl))) as [E1 E2].
+                destruct (IHl (fun z Hz => Hfv z (or_intror Hz))) as [E3 E4].
+                rewrite E1, E2, E3, E4. split; reflexivity.
+              + assert (Hfx : fits_any_top u m var x = true) by (destruct x; try exact Hfv; congruence).
+                destruct (Hone x Hfx) as [E1 E2].
+                assert (Ex : match x with VList _ _ => False | _ => True end).
+                { unfold fits_any_top in Hfx. apply andb_true_iff in Hfx as [Hfx _]. destruct x; try discriminate Hfx; exact I. }
+                destruct x; try congruence; try destruct Ex; cbn [flat_map forallb]; rewrite E1, E2; split; reflexivity.
+            - rewrite El, Hf0 in Hfv. destruct t0; [discriminate Hfv|]. rewrite forallb_forall in Hfv. specialize (Hfv x Hil).
+              destruct (Hone x Hfv) as [E1 E2].
+              assert (Ex : match x with VList _ _ => False | _ => True end).
+              { unfold fits_any_top in Hfv. apply andb_true_iff in Hfv as [Hfv _]. destruct x; try discriminate Hfv; exact I. }
+              destruct x; try congruence; try destruct Ex; cbn [flat_map forallb]; rewrite E1, E2; split; reflexivity. }
         - destruct (wf_elem_inv var Hwe) as [Hk [Hc Hty]].
           pose proof (Hfe _ var Hine (or_introl eq_refl)) as Hfv0.
           assert (Hkt : v_is KText var = false) by (destruct Hk as [_ [Hkt _]]; exact Hkt).
@@ -609,10 +687,10 @@ Section Tree.
         unfold same_var in Hsv. apply N.eqb_eq in Hsv. exact Hsv. }
       subst var'. clear Hsv.
       assert (Hsub : existsb kid_content (map (item_of c) (g_field c u (gobj n) var x)) = true).
-      { destruct (wf_class_evar m var Hwc Hvar) as [[Hwe Hine]|[Htx [Hwt Hnoe]]].
-        - apply content_of_den. rewrite flat_map_map. fold den.
+      { assert (Hnontext : v_is KText var = false ->
+                  existsb kid_content (map (item_of c) (g_field c u (gobj n) var x)) = true).
+        { intros Hkt. apply content_of_den. rewrite flat_map_map. fold den.
           destruct (Hper var x Hin) as [Hper' _]. rewrite Hper'.
-          destruct (wf_elem_inv var Hwe) as [[_ [Hkt _]] _].
           unfold RoundtripGen.e_field.
           assert (Hcase : x = VNone \/ x <> VNone) by (destruct x; [left; reflexivity|right; discriminate..]).
           destruct Hcase as [->|Hxn].
@@ -620,7 +698,10 @@ Section Tree.
             cbn [RoundtripGen.e_items]. rewrite Hok. discriminate.
           + assert (Hne : e_wrap var (e_items c u (eobj n) var x) <> [])
               by (apply e_wrap_nonempty; apply (e_items_nonempty _ var x Hkt Hox Hxn)).
-            destruct x; [congruence|exact Hne..].
+            destruct x; [congruence|exact Hne..]. }
+        destruct (wf_class_evar m var Hwc Hvar) as [[Hwe Hine]|[[Htx [Hwt Hnoe]]|[_ [Hww _]]]].
+        3:{ apply Hnontext. destruct (wf_wild_inv var Hww) as [_ [_ [_ [_ [_ [_ [_ [_ [Hkt _]]]]]]]]]. exact Hkt. }
+        - apply Hnontext. destruct (wf_elem_inv var Hwe) as [[_ [Hkt _]] _]. exact Hkt.
         - (* the Text field *)
           destruct (wf_text_inv var Hwt) as [Hwtk [Hwt0 [t [Htys Hwtd]]]].
           assert (Hxe : x = field_of fs var).
